@@ -363,7 +363,7 @@ def run(ctx):
             exp = expected_reply(dev, rq)
             got = json.loads(rp)
             if fatal and rq["command"] == "getPubKey" and got != exp and not victim_used and \
-                    got.get("errorcode") not in (0, 1):
+                    got.get("errorcode") in (None, -906, -2):
                 victim_used = True   # the one request that met the fatal answer
                 continue
             if exp is not None and got != exp:
